@@ -199,7 +199,7 @@ impl<'a> SimdOp for SimdTopK<'a> {
         let mut kth_logit_vec = ops.splat(kth_logit);
 
         let mut update_topk = |kth_logit: &mut f32, index: u32, logit: f32| {
-            if logit > *kth_logit {
+            if logit.total_cmp(kth_logit).is_gt() {
                 *topk.last_mut().unwrap() = (index, logit);
                 topk.sort_by(|a, b| compare_gt(a.1, b.1));
                 *kth_logit = topk.last().unwrap().1;
@@ -214,7 +214,11 @@ impl<'a> SimdOp for SimdTopK<'a> {
         let mut indices_iter = indices.chunks_exact(ops.len());
         let mut logits_iter = logits.simd_iter(ops);
         for (index_chunk, logits_vec) in indices_iter.by_ref().zip(logits_iter.by_ref()) {
-            if mask_ops.any(ops.gt(logits_vec, kth_logit_vec)) {
+            // Skip chunks where every value is less than the K-th largest so
+            // far. The comparison is false for NaNs and for equal values (eg.
+            // zeros with different signs), which the total order may rank above
+            // the K-th value, so those are checked individually.
+            if !mask_ops.all(ops.lt(logits_vec, kth_logit_vec)) {
                 for (&index, logit) in index_chunk.iter().zip(logits_vec.to_array()) {
                     update_topk(&mut kth_logit, index, logit);
                 }
